@@ -543,7 +543,8 @@ vcf2zarr_main.add_command(dencode_finalise)
 
 @click.command(name="convert")
 @click.argument("in_path", type=click.Path())
-@click.argument("zarr_path", type=click.Path())
+@new_zarr_path
+@force
 @worker_processes
 @progress
 @verbose
@@ -552,6 +553,7 @@ vcf2zarr_main.add_command(dencode_finalise)
 def convert_plink(
     in_path,
     zarr_path,
+    force,
     verbose,
     worker_processes,
     progress,
@@ -562,6 +564,7 @@ def convert_plink(
     In development; DO NOT USE!
     """
     setup_logging(verbose)
+    check_overwrite_dir(zarr_path, force)
     plink.convert(
         in_path,
         zarr_path,
